@@ -138,7 +138,8 @@ def run(p: Program, rep: Report, tier: str) -> None:
         "sanctioned table (one line of reason each); anything else is a violation naming both constructs. Also: public "
         "name pairing (__all__), one-sided definitions, class attributes and bases, no one-sided override of shared bases; "
         "R4.5 the shared multipart decoder treats every arriving chunk (empty ones included) as bytes to append, so the different "
-        "chunk shapes of the two gateways cannot change the form."
+        "chunk shapes of the two gateways cannot change the form; R4.6 the scope and the environ branch of the shared URL constructor pass "
+        "corresponding gateway values to one builder."
     )
     rep.assume("values computed by shared stdlib calls are equal when their argument expressions are; duplicate request-header semantics (ASGI last-wins scan vs server-joined environ) are outside what the fingerprints decide")
     F = Folder(p)
@@ -294,6 +295,14 @@ def run(p: Program, rep: Report, tier: str) -> None:
         else:
             rep.violation("R4.5", construct(fn_, text=cons), where(fn_, node), msg, path_facts=facts)
     rep.require_instances("R4.5", 2)
+
+    # ---------------------------------------------------------------- R4.6 the shared URL builder is fed corresponding gateway values
+    # request.url is computed by shared code with one branch per interface; the two branches must pass the corresponding
+    # gateway values (root_path+path <-> SCRIPT_NAME+PATH_INFO, ...) to the same builder
+    from .c18 import gateway_url_branches
+
+    gateway_url_branches(p, rep, "R4.6")
+    rep.require_instances("R4.6", 12)
 
 
 def _filter(items: Counter, side: str, sanc) -> List:
